@@ -112,7 +112,7 @@ static void run() {
     auto &a = vp::args();
     vp::CaseScope scope([] { return ser_case(g_cur); });
     vp::stats().rule = "enum/random: all 18 emit entry points (4 requests, ACK with/without payload, 11 error responses, 2 meta) x {serial, tcp} x {8, 16}-bit memory x request kinds, with addresses and "
-                       "sequence numbers at the edges, payloads rich in SLIP control octets (octet payloads at even and odd addresses), sinks that take whole calls / one octet per call / short writes mixed with EINTR, a SLIP control octet behind every run length 0..300 of ordinary payload octets, total lengths across the varint boundaries 127/128 and 16383/16384 and payloads across 2^16 and 2^17 octets; oracle = reference encoder octets + "
+                       "sequence numbers at the edges, payloads rich in SLIP control octets (octet payloads at even and odd addresses), sinks that take whole calls / one octet per call / short writes mixed with EINTR, sequence numbers searched so that the header checksum is 0x0000/0xffff/SLIP control octets, a SLIP control octet behind every run length 0..300 of ordinary payload octets, total lengths across the varint boundaries 127/128 and 16383/16384 and payloads across 2^16 and 2^17 octets; oracle = reference encoder octets + "
                        "the library's own receiver reports the same fields; request sequence numbers increase by one modulo 2^16 (session of 70000 requests)";
     vp::stats().exhaustive = false;
     vp::Rng rng(a.seed * 15013 + a.shard);
@@ -146,6 +146,22 @@ static void run() {
         Case c{entry, (bool)serial, mem16, false, mem16, (uint16_t)rng.next(), (uint32_t)rng.next(), (uint32_t)(entry == 3 || (entry == 4 && mem16) ? pl / 2 : pl), 0, gen_payload(rng, pl), true};
         run_case(c);
         vp::nontrivial(vp::fnv(ser_case(c))); vp::cls("length-across-varint-boundary");
+    }
+    // frames whose header checksum comes out as 0x0000 / 0xffff / 0xc0c0 / 0xdbdb: the sequence number is searched with the reference encoder
+    // (one in 65536 headers has each value; an emitter that looks at the checksum *value* to decide anything shows here)
+    for (int entry : {0, 1, 2, 3}) for (uint32_t n : {0u, 1u, 4u}) for (int want : {0x0000, 0xffff, 0xc0c0, 0xdbdb, 0x00c0, 0xdb00}) {
+        if (idx++ % a.nshards != a.shard) continue;
+        bool write = entry >= 2, w16 = entry & 1;
+        Bytes pl = write ? gen_payload(rng, (size_t)n * (w16 ? 2 : 1)) : Bytes();
+        for (uint32_t sq = 0; sq < 65536; sq++) {
+            rp::Frame f = rp::make_request(true, write, w16, (uint16_t)sq, 0x1000 + n, n, pl);
+            Bytes e = rp::encode(f);
+            if (((e[12] << 8) | e[13]) != want) continue;
+            Case c{entry, true, (bool)w16, false, false, (uint16_t)sq, 0x1000 + n, n, 0, pl, (bool)(n & 1)};
+            run_case(c);
+            vp::nontrivial(vp::fnv(ser_case(c))); vp::cls("header-checksum-with-a-searched-value");
+            break;
+        }
     }
     // a SLIP control octet behind a run of k ordinary payload octets, every k up to 300 (header octets precede the run on the wire)
     for (size_t k = 0; k <= 300; k++) for (uint8_t ctl : {(uint8_t)0xc0, (uint8_t)0xdb}) {
